@@ -241,6 +241,33 @@ impl<'a> Gen<'a> {
             c
         };
 
+        // "long" histories: many calls over many distinct paths in one process (cache growth,
+        // anything that depends on how much has happened before); default options keep the
+        // number of distinct reference calls bounded
+        if batch == Batch::Main && rng.chance(1, 50) {
+            let nthreads = if plain_seq { 1 } else { rng.range(1, 3) };
+            let ncalls = rng.range(120, 400);
+            let mut threads: Vec<Vec<Value>> = vec![vec![]; nthreads];
+            for _ in 0..ncalls {
+                let d = *rng.pick(&usable);
+                let qs = self.queries_of(d);
+                let ss = self.schemas_of(d);
+                let (q, s) = (*rng.pick(&qs), *rng.pick(&ss));
+                let mut c = json!({"entry": "file", "query": self.tree.spell(&q.dir, &q.file, rng.below(SPELLINGS)), "schema": self.tree.spell(&s.dir, &s.file, rng.below(SPELLINGS)), "opts": {}});
+                if rng.chance(1, 25) {
+                    let (rel, kind) = rng.pick(&self.tree.bad).clone();
+                    let role = if rng.chance(1, 2) { "query" } else { "schema" };
+                    c[role] = json!(self.tree.abs(&rel));
+                    labels.push(format!("fail-{}:{}", if role == "query" { "Q" } else { "S" }, kind));
+                }
+                let t = rng.below(nthreads);
+                threads[t].push(c);
+            }
+            threads.retain(|t| !t.is_empty());
+            labels.push("long".into());
+            let schedule = if plain_seq { json!({"kind": "none"}) } else { json!({"kind": "random", "seed": rng.next_u64()}) };
+            return History { threads, schedule, faults: vec![], flavour: if plain_seq { "plain-seq" } else { "sim" }, fault_focused: false, labels };
+        }
         let mut threads: Vec<Vec<Value>> = vec![];
         let mut total = 0;
         for _ in 0..nthreads {
